@@ -1589,6 +1589,25 @@ def jnp_reshape(a, shape):
             return AT(tuple(tgt), a.data.reshape(tuple(x for x in tgt if isinstance(x, int))))
         if sp and list(core[:2]) == [sp[1], sp[0]]:
             raise Finding(f"reshape of a product row axis {src[0]} to ({core[0]}, {core[1]}): the major axis comes first")
+    # a repeated / tiled row axis with a concrete count splits back into (rows, copies) resp. (copies, rows): the other order
+    # interleaves the rows (element [i, f] of Tile(A, n) reshaped to (A, n) is row (i * n + f) mod |A|)
+    if len(src) >= 1 and isinstance(src[0], str) and src[0].startswith(("Tile(", "Rep(")) and len(core) == len(src) + 1 \
+            and core[2:] == src[1:]:
+        kind = src[0][:src[0].index('(')]
+        sp = _split2(src[0][len(kind) + 1:-1])
+        if sp and sp[1].isdigit() and int(sp[1]) > 1:
+            A, n = sp[0], int(sp[1])
+            good = [A, n] if kind == 'Rep' else [n, A]
+            if list(core[:2]) == good:
+                base = AT((A,) + tuple(src[1:]), a.data)
+                pos = tgt.index(n)
+                out = jnp_expand_dims(base, 0 if kind == 'Tile' else 1)
+                out = jnp_repeat(out, n, axis=0 if kind == 'Tile' else 1)
+                return jnp_reshape(out, tuple(SymDim(x) if isinstance(x, str) else x for x in tgt)) if list(out.axes) != tgt else out
+            if list(core[:2]) == good[::-1]:
+                where = f"element [i, f] is row (i * {n} + f) mod |{A}|, not row i" if kind == 'Tile' else \
+                    f"element [c, i] is row (c * |{A}| + i) // {n}, not row i"
+                raise Finding(f"reshape of {src[0]} to ({core[0]}, {core[1]}) interleaves the rows ({where})")
     if core != src and -1 not in tgt:
         # the named axes keep their order and the concrete axes between them are regrouped run by run with the same number of
         # elements per run ((12, G0, G1) -> (4, 3, G0, G1)): a row-major reshape of the concrete part alone
@@ -1661,6 +1680,37 @@ def jnp_repeat(a, repeats, axis=None, **kw):
         return AT(a.axes[:k] + (f"Rep({a.axes[k]},{repeats})",) + a.axes[k + 1:], a.data)
     ck = a.cidx(k)
     return AT(a.axes[:k] + (a.axes[k] * repeats,) + a.axes[k + 1:], np.repeat(a.data, repeats, axis=ck))
+
+
+def jnp_resize(a, shape):
+    """numpy.resize: the flattened array repeated cyclically to the number of elements of `shape`, then reshaped"""
+    a = to_at(a)
+    if isinstance(shape, (int, Poly, SymDim)):
+        shape = (shape,)
+    shape = tuple(shape)
+    if all(isinstance(x, int) for x in a.axes):
+        tgt = tuple(_dim(s) for s in shape)
+        if not all(isinstance(x, int) for x in tgt):
+            raise Top("resize of a concrete tensor to a symbolic extent")
+        data = np.resize(a.data, tgt)
+        return AT(data.shape, data)
+    named = [x for x in a.axes if isinstance(x, str)]
+    if len(named) != 1 or any(x != 1 for x in a.axes if isinstance(x, int)):
+        raise Top(f"resize of a tensor with axes {a.axes}")
+    A = named[0]
+    flat = AT((A,), a.data.reshape(()))
+    tn, n = [], 1
+    for s in shape:
+        s = _as_count(s)
+        if isinstance(s, SymDim):
+            tn.append(s.name)
+        elif isinstance(s, int):
+            n *= s
+        else:
+            raise Top(f"resize to {shape}")
+    if tn != [A]:
+        raise Top(f"resize of rows {A} to {shape}")
+    return jnp_reshape(flat if n == 1 else jnp_tile(flat, n), shape)
 
 
 def jnp_tile(a, reps):
